@@ -19,7 +19,7 @@ use crate::{
     Args,
 };
 
-const RPS: [&str; 4] = ["alpha.example", "beta.example", "gamma.example", "unknown.example"];
+const RPS: [&str; 5] = ["alpha.example", "beta.example", "gamma.example", "unknown.example", "Alpha.Example"];
 
 struct Content {
     creds: Vec<Passkey>,
